@@ -30,7 +30,6 @@ structure Codec (E M : Type) where
   de : String → Option E
   serM : M → String
   deM : String → Option M
-  strT : List E → String
 
 structure Codec.Lawful {E M : Type} (c : Codec E M) : Prop where
   rt : ∀ e, c.de (c.ser e) = some e
@@ -377,24 +376,29 @@ def RandomVariables.fromDict (d : Json) : Option (RandomVariables E M) := do
   some { dists, etaLevels, epsLevels }
 
 /-! ### Execution steps.  All fields except `derivatives` pass through `to_dict`
-    and `cls(**d)` unchanged, so they are carried as JSON values. -/
+    and `cls(**d)` unchanged, so they are carried as JSON values.
+    (`E` is kept as a parameter of the step types for uniformity; no field uses it any more.) -/
 
-/-- one entry of `EstimationStep._derivatives`: a tuple of expressions as `create`
-    makes it, or the string `from_dict` puts there (it never parses `str(tuple)` back) -/
-inductive Deriv (E : Type) where
-  | tup (es : List E)
-  | raw (s : String)
-  deriving DecidableEq, Repr
+/-- `EstimationStep._derivatives` is a tuple of tuples of *symbols* (`create` refuses anything else);
+    since 118f2d1 `to_dict` writes each symbol's name (`str(arg)`) and `from_dict` rebuilds
+    `Expr.symbol(arg)`, so a derivative is carried as the list of its symbol names. -/
+def derivsToJson (ds : List (List String)) : Json := .arr (ds.map (fun d => .arr (d.map .str)))
 
-/-- `str(d)`; `str` of a `str` is itself -/
-def Deriv.str : Deriv E → String
-  | .tup es => c.strT es
-  | .raw s => s
-
-/-- what `cls(**d)` stores for one element of `d['derivatives']`: the string itself -/
-def Deriv.ofJson : Json → Option (Deriv E)
-  | .str s => some (.raw s)
+/-- `tuple(Expr.symbol(arg) for arg in der)`: `der` is a JSON array of names; a Python `str` is
+    iterable too and yields its characters -/
+def derivOfJson : Json → Option (List String)
+  | .arr xs => allSome Json.asStr? xs
+  | .str s => some (s.toList.map (fun ch => ch.toString))
   | _ => none
+
+/-- `tuple(... for der in d.get('derivatives', ()))` -/
+def derivsOfJson : Json → Option (List (List String))
+  | .arr xs => allSome derivOfJson xs
+  | _ => none
+
+/-- pre-118f2d1: `tuple(str(d) for d in self._derivatives)` (and `from_dict` passed the strings through) -/
+def derivsToJsonPre (strT : List String → String) (ds : List (List String)) : Json :=
+  .arr (ds.map (fun d => .str (strT d)))
 
 structure EstStep (E : Type) where
   method : Json
@@ -407,7 +411,7 @@ structure EstStep (E : Type) where
   niter : Json
   auto : Json
   keepEveryNthIter : Json
-  derivatives : List (Deriv E)
+  derivatives : List (List String)
   predictions : Json
   residuals : Json
   individualEtaSamples : Json
@@ -422,7 +426,7 @@ def EstStep.toDict (s : EstStep E) : Json :=
         ("parameter_uncertainty_method", s.parameterUncertaintyMethod), ("evaluation", s.evaluation),
         ("maximum_evaluations", s.maximumEvaluations), ("laplace", s.laplace), ("isample", s.isample),
         ("niter", s.niter), ("auto", s.auto), ("keep_every_nth_iter", s.keepEveryNthIter),
-        ("derivatives", .arr (s.derivatives.map (fun d => .str (d.str c)))),
+        ("derivatives", derivsToJson s.derivatives),
         ("predictions", s.predictions), ("residuals", s.residuals),
         ("individual_eta_samples", s.individualEtaSamples),
         ("solver", s.solver), ("solver_rtol", s.solverRtol), ("solver_atol", s.solverAtol),
@@ -439,9 +443,7 @@ def EstStep.fromDict (d : Json) : Option (EstStep E) := do
   let _ ← d.get? "tool_options"           -- `d['tool_options']` is read unconditionally
   if !onlyKeys d ("class" :: estKeys) then none
   let method ← d.get? "method"
-  let derivatives ← match kw d "derivatives" (.arr []) with
-    | .arr xs => allSome Deriv.ofJson xs
-    | _ => none
+  let derivatives ← derivsOfJson (kw d "derivatives" (.arr []))
   some { method,
          interaction := kw d "interaction" (.bool false),
          parameterUncertaintyMethod := kw d "parameter_uncertainty_method" .null,
@@ -489,7 +491,7 @@ inductive Step (E : Type) where
   deriving Repr
 
 def Step.toDict : Step E → Json
-  | .est s => s.toDict c
+  | .est s => s.toDict
   | .sim s => s.toDict
 
 def Step.fromDict (d : Json) : Option (Step E) :=
@@ -498,7 +500,7 @@ def Step.fromDict (d : Json) : Option (Step E) :=
   | some (.str "EstimationStep") => (EstStep.fromDict d).map .est
   | some _ => (SimStep.fromDict d).map .sim
 
-def Steps.toDict (ss : List (Step E)) : Json := .obj [("steps", .arr (ss.map (Step.toDict c)))]
+def Steps.toDict (ss : List (Step E)) : Json := .obj [("steps", .arr (ss.map Step.toDict))]
 
 def Steps.fromDict (d : Json) : Option (List (Step E)) := do
   allSome (Step.fromDict (E := E)) (← getArr d "steps")
@@ -589,7 +591,7 @@ def Model.toDict (m : Model E M) : Json :=
   .obj [("parameters", Parameters.toDict m.parameters),
         ("random_variables", m.randomVariables.toDict c),
         ("statements", Statements.toDict c m.statements),
-        ("execution_steps", Steps.toDict c m.executionSteps),
+        ("execution_steps", Steps.toDict m.executionSteps),
         ("datainfo", m.datainfo.toDict),
         ("value_type", m.valueType),
         ("dependent_variables", .obj m.dependentVariables),
